@@ -35,6 +35,9 @@ PlansOver(N0s, MaxPg) ==
 
 PlansQuick == PlansOver({0, 3}, 4)
 PlansBig   == PlansOver({0, 2, 3, 4}, 5)
+\* a first segment of exactly four records followed by a second segment: with 32-byte sectors (the
+\* smallest SQLite accepts) the first segment ends exactly on a sector boundary
+PlansAligned == {p \in PlansOver({5}, 5) : p.spill = 4}
 OnePlan    == {[n0 |-> 0, ns |-> 1, m |-> {1}, sync |-> TRUE, spill |-> 0, stale |-> FALSE]}
 
 WHdrsAll == {"ok", "badmagic", "badck", "short", "zero"}
